@@ -302,6 +302,14 @@ func (e *SpecEnv) evalIdent(id *ast.Ident) (Val, error) {
 	case "nil":
 		return Val{T: "nil"}, nil
 	}
+	if id.Name == "idx" && e.at != nil && e.fr != nil {
+		// number of completed iterations of the index loop whose header is e.at
+		for _, ins := range e.at.Instrs {
+			if phi, ok := ins.(*ssa.Phi); ok && phi.Comment == "rangeindex" {
+				return Val{T: "(+ " + e.fr.vals[phi].T + " 1)", Typ: types.Typ[types.Int]}, nil
+			}
+		}
+	}
 	vars := e.vars
 	if e.inOld && e.oldVars != nil {
 		if v, ok := e.oldVars[id.Name]; ok {
@@ -782,6 +790,27 @@ general:
 				return Val{T: vc.mapLen(e.curState(), u, a.T), Typ: intT}, nil
 			}
 			return Val{}, fmt.Errorf("len of %v", a.Typ)
+		case "member", "memberN":
+			// memberN(s, n, k): k occurs among s[0..n) — uninterpreted, unfolded one level at n;
+			// member(s, k) = memberN(s, len(s), k)
+			var sl, n, k Val
+			if id.Name == "member" {
+				if err := need(2); err != nil {
+					return Val{}, err
+				}
+				sl, k = args[0], args[1]
+				n = Val{T: "(slen " + sl.T + ")"}
+			} else {
+				if err := need(3); err != nil {
+					return Val{}, err
+				}
+				sl, n, k = args[0], args[1], args[2]
+			}
+			st, ok := sl.Typ.Underlying().(*types.Slice)
+			if !ok || isByteSlice(sl.Typ) {
+				return Val{}, fmt.Errorf("member on %v", sl.Typ)
+			}
+			return Val{T: vc.memberN(e.curState(), st.Elem(), sl.T, n.T, k.T), Typ: boolT}, nil
 		case "first", "second", "third":
 			if err := need(1); err != nil {
 				return Val{}, err
@@ -874,6 +903,24 @@ general:
 		// conversion T(x) with a universe or package type
 		if typ, err := e.resolveType(id); err == nil && len(args) == 1 {
 			return e.convertTo(args[0], typ)
+		}
+		if sf, ok := vc.eng.contracts.SpecFuncs[id.Name]; ok {
+			rt, err := e.resolveType(sf.Result)
+			if err != nil {
+				return Val{}, err
+			}
+			for i := range args {
+				if i < len(sf.Params) && (args[i].Typ == nil) {
+					if pt, err := e.resolveType(sf.Params[i]); err == nil {
+						if args[i].T == "nil" {
+							args[i] = vc.mkVal(vc.S.zero(pt), pt)
+						} else {
+							args[i] = vc.mkVal(args[i].T, pt)
+						}
+					}
+				}
+			}
+			return vc.ufApply(e.curState(), "spec."+sf.Name, args, rt, "spec"), nil
 		}
 		if e.pkg != nil {
 			if fo, ok := e.pkg.Scope().Lookup(id.Name).(*types.Func); ok {
@@ -1173,21 +1220,28 @@ func (e *SpecEnv) havocLoc(x ast.Expr, chains map[string]string) error {
 }
 
 func cellLoc(vc *VC, l *Loc) modLoc {
+	// intermediate terms are named: nested overwrites of the same key would otherwise grow exponentially
 	if l.Kind == LCell {
 		key := vc.cellKey(l.Cell)
 		lc := *l
 		return modLoc{key: key, overwrite: func(vc *VC, base, src string) string {
-			nv, _ := vc.S.projPath(lc.Cell, "(select "+src+" "+lc.Ref+")", lc.Path)
-			cell := vc.S.update(lc.Cell, "(select "+base+" "+lc.Ref+")", lc.Path, nv)
-			return fmt.Sprintf("(store %s %s %s)", base, lc.Ref, cell)
+			cs := vc.S.sortOf(lc.Cell)
+			srcCell := vc.define("owsrc", cs, "(select "+src+" "+lc.Ref+")")
+			baseCell := vc.define("owbase", cs, "(select "+base+" "+lc.Ref+")")
+			nv, _ := vc.S.projPath(lc.Cell, srcCell, lc.Path)
+			cell := vc.S.update(lc.Cell, baseCell, lc.Path, nv)
+			return vc.define("ow", vc.heapSort[key], fmt.Sprintf("(store %s %s %s)", base, lc.Ref, cell))
 		}}
 	}
 	key := vc.elemKey(l.Cell)
 	lc := *l
 	return modLoc{key: key, overwrite: func(vc *VC, base, src string) string {
-		nv, _ := vc.S.projPath(lc.Cell, fmt.Sprintf("(select (select %s %s) %s)", src, lc.Ref, lc.Idx), lc.Path)
-		cell := vc.S.update(lc.Cell, fmt.Sprintf("(select (select %s %s) %s)", base, lc.Ref, lc.Idx), lc.Path, nv)
-		return fmt.Sprintf("(store %s %s (store (select %s %s) %s %s))", base, lc.Ref, base, lc.Ref, lc.Idx, cell)
+		cs := vc.S.sortOf(lc.Cell)
+		srcCell := vc.define("owsrc", cs, fmt.Sprintf("(select (select %s %s) %s)", src, lc.Ref, lc.Idx))
+		baseCell := vc.define("owbase", cs, fmt.Sprintf("(select (select %s %s) %s)", base, lc.Ref, lc.Idx))
+		nv, _ := vc.S.projPath(lc.Cell, srcCell, lc.Path)
+		cell := vc.S.update(lc.Cell, baseCell, lc.Path, nv)
+		return vc.define("ow", vc.heapSort[key], fmt.Sprintf("(store %s %s (store (select %s %s) %s %s))", base, lc.Ref, base, lc.Ref, lc.Idx, cell))
 	}}
 }
 
@@ -1233,9 +1287,9 @@ func (e *SpecEnv) modLocs(x ast.Expr) ([]modLoc, error) {
 			mk := func(key string) modLoc {
 				return modLoc{key: key, overwrite: func(vc *VC, base, src string) string {
 					if star {
-						return fmt.Sprintf("(store %s %s (select %s %s))", base, ref, src, ref)
+						return vc.define("ow", vc.heapSort[key], fmt.Sprintf("(store %s %s (select %s %s))", base, ref, src, ref))
 					}
-					return fmt.Sprintf("(store %s %s (store (select %s %s) %s (select (select %s %s) %s)))", base, ref, base, ref, kt, src, ref, kt)
+					return vc.define("ow", vc.heapSort[key], fmt.Sprintf("(store %s %s (store (select %s %s) %s (select (select %s %s) %s)))", base, ref, base, ref, kt, src, ref, kt))
 				}}
 			}
 			return []modLoc{mk(d), mk(v)}, nil
@@ -1247,9 +1301,9 @@ func (e *SpecEnv) modLocs(x ast.Expr) ([]modLoc, error) {
 			ref := "(sarr " + c.T + ")"
 			return []modLoc{{key: key, overwrite: func(vc *VC, base, src string) string {
 				if star {
-					return fmt.Sprintf("(store %s %s (select %s %s))", base, ref, src, ref)
+					return vc.define("ow", vc.heapSort[key], fmt.Sprintf("(store %s %s (select %s %s))", base, ref, src, ref))
 				}
-				return fmt.Sprintf("(store %s %s (store (select %s %s) %s (select (select %s %s) %s)))", base, ref, base, ref, kt, src, ref, kt)
+				return vc.define("ow", vc.heapSort[key], fmt.Sprintf("(store %s %s (store (select %s %s) %s (select (select %s %s) %s)))", base, ref, base, ref, kt, src, ref, kt))
 			}}}, nil
 		}
 		return nil, fmt.Errorf("modifies index on %v", c.Typ)
@@ -1283,4 +1337,26 @@ func (e *SpecEnv) modLocs(x ast.Expr) ([]modLoc, error) {
 		return []modLoc{cellLoc(vc, &l)}, nil
 	}
 	return nil, fmt.Errorf("unsupported modifies expression %s", exprString(x))
+}
+
+
+// memberN returns the term memberN(inner, n, k) and asserts its one-level unfolding at n and the
+// witness axiom (a member has an index).
+func (vc *VC) memberN(st *state, elem types.Type, sl, n, k string) string {
+	es := vc.S.sortOf(elem)
+	fn := q("memberN:" + typeKey(elem))
+	wit := q("memberIdx:" + typeKey(elem))
+	vc.S.declare("memberN:"+typeKey(elem), fmt.Sprintf("(declare-fun %s ((Array Int %s) Int %s) Bool)", fn, es, es))
+	vc.S.declare("memberIdx:"+typeKey(elem), fmt.Sprintf("(declare-fun %s ((Array Int %s) Int %s) Int)", wit, es, es))
+	inner := vc.sel(st, vc.elemKey(elem), "(sarr "+sl+")")
+	app := func(m string) string { return fmt.Sprintf("(%s %s %s %s)", fn, inner, m, k) }
+	vc.assume("true", fmt.Sprintf("(=> (<= %s 0) (not %s))", n, app(n)))
+	vc.assume("true", fmt.Sprintf("(=> (> %s 0) (= %s (or %s (= (select %s (- %s 1)) %s))))", n, app(n), app("(- "+n+" 1)"), inner, n, k))
+	w := fmt.Sprintf("(%s %s %s %s)", wit, inner, n, k)
+	vc.assume("true", fmt.Sprintf("(=> %s (and (<= 0 %s) (< %s %s) (= (select %s %s) %s)))", app(n), w, w, n, inner, w, k))
+	// every ghost index below n witnesses membership of its element
+	for _, g := range vc.ghostByKey["Int"] {
+		vc.assume("true", fmt.Sprintf("(=> (and (<= 0 %s) (< %s %s) (= (select %s %s) %s)) %s)", g, g, n, inner, g, k, app(n)))
+	}
+	return app(n)
 }
